@@ -263,10 +263,13 @@ def memo_obligations(P, G):
         outer = set()
         if encl is not None:
             outer, _ = local_names(encl)
+        stores = []
         for n in ast.walk(fn):
-            if not (isinstance(n, ast.Assign) and len(n.targets) == 1 and isinstance(n.targets[0], ast.Subscript)):
-                continue
-            t = n.targets[0]
+            if isinstance(n, ast.Assign):
+                for t in n.targets:  # chained assignments (a = memo[key] = value) included
+                    if isinstance(t, ast.Subscript):
+                        stores.append((n, t))
+        for n, t in stores:
             base = t.value
             if not isinstance(base, ast.Name):
                 continue
